@@ -331,6 +331,42 @@ impl Space for Texts {
             "text cell (set_value_string), format General",
             sink,
         );
+        // the text is the cached result of a formula (value first, then the formula: the value setters drop a formula)
+        let tt = t.to_string();
+        judge(
+            guarded(move || {
+                let mut ws = umya_spreadsheet::Worksheet::default();
+                let c = ws.get_cell_mut((1, 1));
+                c.set_value_string(tt);
+                c.set_formula("B1&\"\"");
+                ws.get_formatted_value((1, 1))
+            }),
+            "text result of a formula (set_value_string, then set_formula), default format",
+            sink,
+        );
+        // both kinds of text cell as the READER leaves them (shared string; t=\"str\" with a formula)
+        let tt = t.to_string();
+        let loaded = guarded(move || {
+            let mut book = umya_spreadsheet::new_file();
+            let ws = book.get_sheet_mut(&0).unwrap();
+            ws.get_cell_mut((1, 1)).set_value_string(tt.clone());
+            let c = ws.get_cell_mut((1, 2));
+            c.set_value_string(tt);
+            c.set_formula("B1&\"\"");
+            let mut buf = std::io::Cursor::new(Vec::new());
+            umya_spreadsheet::writer::xlsx::write_writer(&book, &mut buf).map_err(|e| format!("{:?}", e))?;
+            let b2 = umya_spreadsheet::reader::xlsx::read_reader(std::io::Cursor::new(buf.into_inner()), true).map_err(|e| format!("{:?}", e))?;
+            let ws2 = b2.get_sheet(&0).unwrap();
+            Ok::<_, String>((ws2.get_formatted_value((1, 1)), ws2.get_formatted_value((1, 2))))
+        });
+        match loaded {
+            Ok(Ok((a, b))) => {
+                judge(Ok(a), "text cell after save + reload", sink);
+                judge(Ok(b), "text result of a formula after save + reload", sink);
+            }
+            Ok(Err(_)) => sink.count("text_workbook_did_not_round_trip", 1),
+            Err(m) => judge(Err(m), "text cells after save + reload", sink),
+        }
         if plain {
             // the helper cannot tell text from numbers, so only texts that are not numerals are passed
             judge(via_helper(t, "General"), "to_formatted_string", sink);
